@@ -18,34 +18,51 @@ inductive Crash | assertion | attribute | value | index | type | key
 inductive Loc
   | coord (c : Coord)
   | text (s : String)
+  | fileRef (r : Nat)      -- `self.clex.filename` at the time (resolved by `finish`)
   | none
   deriving Repr, Inhabited, DecidableEq
 
 def Loc.str : Loc → String
   | .coord c => c.str
   | .text s => s
+  | .fileRef r => "<file#" ++ toString r ++ ">"
   | .none => "None"
 
 inductive Err
   | parse (loc : Loc) (msg : String)      -- `ParseError(f"{coord}: {msg}")`
+  | lex (i : Nat)                         -- the lexer's error callback fired on stripped event `i`
   | crash (k : Crash) (site : String)     -- any other exception escaping
   | fuel                                  -- recursion budget exhausted (Python: RecursionError)
   deriving Repr, Inhabited
 
+/-- All the parser core can see of a lexer event: the class and spelling of a token, or the
+fact that the error callback fires / the input ends.  Positions and file names are *not*
+visible: the core refers to a token by its index in this stream, and `finish` (Parser/Stmt.lean)
+translates indices into `Coord`s afterwards. -/
+inductive SEv
+  | tok (kind val : String)
+  | err
+  | eof
+  | stuck
+  deriving Repr, Inhabited, DecidableEq
+
 structure PTok where
   kind : String
   val : String
-  line : Nat
-  col : Nat
+  /-- index of the token's event in the stripped stream -/
+  idx : Nat
   deriving Repr, Inhabited, DecidableEq, BEq
 
 abbrev Scope := List (String × Bool)
 
 structure PState where
   /-- what the lexer will still produce (pre-scanned with every identifier as `ID`) -/
-  raw : List Ev
-  /-- the lexer's current file name (`self.clex.filename`) -/
-  lexFile : String
+  raw : List SEv
+  /-- index (in the stripped stream) of the head of `raw` -/
+  pulled : Nat
+  /-- reference to the lexer's current file name (`self.clex.filename`): 0 = the name passed to
+  `parse`, k+1 = the name in force when stripped event k was returned -/
+  fileRef : Nat
   /-- `_TokenStream._buffer` -/
   buf : Array (Option PTok)
   /-- `_TokenStream._index` -/
@@ -137,25 +154,24 @@ def addIdentifier (name : String) (coord : Option Coord) : P Unit := fun s =>
 
 /-- one call of `self.clex.token()` as seen from the parser: classification of identifiers
 against the scope stack *now*, scope push/pop on braces *now*, error callback raising. -/
-def lexPull : List Ev → PState → Res (Option PTok)
-  | [], s => .ok none s
-  | .dir _ _ :: r, s => lexPull r s
-  | .eof f :: r, s => .ok none { s with raw := .eof f :: r, lexFile := f, lexCalls := s.lexCalls + 1 }
-  | .stuck :: _, _ => .err .fuel
-  | .err msg line col _ file :: _, _ => .err (.parse (.coord ⟨file, line, some col⟩) msg)
-  | .tok t _ file :: r, s =>
-    let s := { s with raw := r, lexFile := file, lexCalls := s.lexCalls + 1 }
-    let kind := if t.kind == "ID" && isTypeInScopes s.scopes t.val then "TYPEID" else t.kind
-    let tok : PTok := ⟨kind, t.val, t.line, t.col⟩
-    if t.kind == "LBRACE" then
+def lexToken : P (Option PTok) := fun s =>
+  match s.raw with
+  | [] => .ok none s
+  | .eof :: _ => .ok none { s with fileRef := s.pulled + 1, lexCalls := s.lexCalls + 1 }
+  | .stuck :: _ => .err .fuel
+  | .err :: _ => .err (.lex s.pulled)
+  | .tok k v :: r =>
+    let i := s.pulled
+    let s := { s with raw := r, pulled := i + 1, fileRef := i + 1, lexCalls := s.lexCalls + 1 }
+    let kind := if k == "ID" && isTypeInScopes s.scopes v then "TYPEID" else k
+    let tok : PTok := ⟨kind, v, i⟩
+    if k == "LBRACE" then
       .ok (some tok) { s with scopes := [] :: s.scopes }
-    else if t.kind == "RBRACE" then
+    else if k == "RBRACE" then
       match s.scopes with
       | _ :: b :: rest => .ok (some tok) { s with scopes := b :: rest }
       | _ => .err (.crash .assertion "_pop_scope")
     else .ok (some tok) s
-
-def lexToken : P (Option PTok) := fun s => lexPull s.raw s
 
 /-- `_TokenStream._fill(n)` (at most `n` iterations are ever needed) -/
 def fill : Nat → Nat → P Unit
@@ -203,18 +219,19 @@ def nextTok : P (Option PTok) := fun s =>
 def mark : P Nat := fun s => .ok s.idx s
 def reset (m : Nat) : P Unit := modifyState fun s => { s with idx := m, ticks := s.ticks + 1 }
 
-def lexFilename : P String := fun s => .ok s.lexFile s
+/-- `self.clex.filename` as an error location -/
+def lexFileLoc : P Loc := fun s => .ok (.fileRef s.fileRef) s
 
-/-- `_tok_coord` : line/column of the token, file name of the lexer *now* -/
-def tokCoord (t : PTok) : P Coord := do
-  let f ← lexFilename
-  pure ⟨f, t.line, some t.col⟩
+/-- `_tok_coord` : line/column of the token, file name of the lexer *now*.
+In the core this is the pseudo-coordinate (token index, file reference) in the `line` / `col`
+fields; `finish` resolves it. -/
+def tokCoord (t : PTok) : P Coord := fun s => .ok ⟨"", t.idx, some s.fileRef⟩ s
 
 /-- `_advance` -/
 def advance : P PTok := do
   match ← nextTok with
   | some t => pure t
-  | none => parseError "At end of input" (.text (← lexFilename))
+  | none => parseError "At end of input" (← lexFileLoc)
 
 /-- `_accept` -/
 def accept (kind : String) : P (Option PTok) := do
